@@ -363,21 +363,22 @@ func (s *linearStream) Run(ctx context.Context) error {
 // ------------------------------------------------------------------ one tier1 request, in process
 
 type runCfg struct {
-	Prod      bool   `json:"prod"`
-	Start     int64  `json:"start"`
-	Stop      uint64 `json:"stop"`
-	LibOK     bool   `json:"libok"`
-	Lib       uint64 `json:"lib"`
-	Seg       uint64 `json:"seg"`
-	Workers   int    `json:"workers"`
-	Order     int64  `json:"order"`  // seed of the job completion order (0 = as they come)
-	Cursor    string `json:"cursor"` // "" or "resume:<index of the delivered block whose cursor is used>"
-	Label     string `json:"label"`
-	Final     bool   `json:"finalonly"` // final_blocks_only request; the source then emits bare irreversible steps
-	Out       string `json:"outmod"`    // output module ("out" unless stated)
-	Plain     bool   `json:"plain"`     // run without per-request hooks (several requests at once on one cache)
-	WalkHold  int    `json:"walkhold"`  // a walker attempt that found no file is reported after this many scheduler messages
-	MergeHold int    `json:"mergehold"` // merges wait for this many scheduler messages (0 = as fast as they go)
+	Prod        bool   `json:"prod"`
+	Start       int64  `json:"start"`
+	Stop        uint64 `json:"stop"`
+	LibOK       bool   `json:"libok"`
+	Lib         uint64 `json:"lib"`
+	Seg         uint64 `json:"seg"`
+	Workers     int    `json:"workers"`
+	Order       int64  `json:"order"`  // seed of the job completion order (0 = as they come)
+	Cursor      string `json:"cursor"` // "" or "resume:<index of the delivered block whose cursor is used>"
+	Label       string `json:"label"`
+	Final       bool   `json:"finalonly"`   // final_blocks_only request; the source then emits bare irreversible steps
+	Out         string `json:"outmod"`      // output module ("out" unless stated)
+	CancelAfter int    `json:"cancelafter"` // the harness cancels the request once the scheduler has handled this many messages (0 = never)
+	Plain       bool   `json:"plain"`       // run without per-request hooks (several requests at once on one cache)
+	WalkHold    int    `json:"walkhold"`    // a walker attempt that found no file is reported after this many scheduler messages
+	MergeHold   int    `json:"mergehold"`   // merges wait for this many scheduler messages (0 = as fast as they go)
 }
 
 type respRec struct {
@@ -580,6 +581,7 @@ func runTier1(env *sysEnv, cfg runCfg, cursor string, traceSched bool) (obs runO
 		obs.Err = err.Error()
 		return
 	}
+	var cancelReq atomic.Value // func(): cancels the request's context (set once the context exists)
 	gate := &jobGate{workers: cfg.Workers}
 	if cfg.Order != 0 {
 		gate.r = rand.New(rand.NewSource(cfg.Order))
@@ -683,6 +685,13 @@ func runTier1(env *sysEnv, cfg runCfg, cursor string, traceSched bool) (obs runO
 		// merge gate: a merge command waits until the scheduler has handled cfg.MergeHold more messages (or 40 ms have passed:
 		// nothing else may be in flight), so that merges complete late relative to job scheduling - a harness-chosen order
 		var updates atomic.Int64
+		bump := func() {
+			if n := updates.Add(1); cfg.CancelAfter > 0 && n == int64(cfg.CancelAfter) {
+				if f, ok := cancelReq.Load().(func()); ok {
+					f()
+				}
+			}
+		}
 		if cfg.MergeHold > 0 {
 			hold := int64(cfg.MergeHold)
 			stage.VerifMergeGate = func(st, sg int) {
@@ -710,13 +719,13 @@ func runTier1(env *sysEnv, cfg runCfg, cursor string, traceSched bool) (obs runO
 			orchexecout.VerifNotPresentGate = nil
 		}
 		if !traceSched {
-			scheduler.VerifTrace = func(s *scheduler.Scheduler, msg loop.Msg) { updates.Add(1) }
+			scheduler.VerifTrace = func(s *scheduler.Scheduler, msg loop.Msg) { bump() }
 		}
 		if traceSched {
 			seq := 0
 			scheduler.VerifTrace = func(s *scheduler.Scheduler, msg loop.Msg) {
 				seq++
-				updates.Add(1)
+				bump()
 				o, st := s.VerifFlags()
 				busy := 0
 				for _, w := range s.WorkerPool.VerifStates() {
@@ -740,6 +749,7 @@ func runTier1(env *sysEnv, cfg runCfg, cursor string, traceSched bool) (obs runO
 		budget = 120 * time.Second
 	}
 	ctx, cancel := context.WithTimeout(ctx, budget)
+	cancelReq.Store(func() { cancel() })
 	obs.Panic = guard(func() { err = svc.TestBlocks(ctx, false, req, collect) })
 	cancel()
 	if !cfg.Plain {
@@ -1062,6 +1072,26 @@ func runSystem(a *args) error {
 		case "forks":
 			for k := 0; k < 3; k++ {
 				runForks(a, r, env, seg)
+			}
+		case "cancel":
+			// a request cancelled in the middle of its parallel phase (after a random number of scheduler messages), then the same
+			// request again on whatever the cancelled one left behind
+			cfg := randCfg(r, prog, seg)
+			cfg.Prod = true
+			cfg.Stop = uint64(cfg.Start) + 2*seg + uint64(r.Intn(12))
+			victim := cfg
+			victim.CancelAfter = 2 + r.Intn(25)
+			victim.Label = "cancel/victim"
+			emitRun(a, env, victim, "", false)
+			for k := 0; k < 2; k++ {
+				again := cfg
+				again.Label = fmt.Sprintf("cancel/after%d", k)
+				again.Workers = 1 + r.Intn(3)
+				if k == 0 && r.Intn(2) == 0 { // cancelled once more
+					again.CancelAfter = 2 + r.Intn(25)
+					again.Label = "cancel/victim2"
+				}
+				emitRun(a, env, again, "", false)
 			}
 		case "concurrent":
 			// two (or three) requests AT THE SAME TIME on one cache directory: same program, overlapping ranges, cold or warm
